@@ -127,6 +127,9 @@ pub fn work(prop: &dyn Property, tier: Tier, base: u64, from: u64, to: u64, step
     while i < to {
         let t_run = Instant::now();
         let plan = if i < n_enum { enumerated[i as usize].clone() } else { prop.gen_plan(mix_seed(base, i - n_enum), tier) };
+        // descriptors a run leaves behind (a worker that panicked or was aborted never closes its sockets) would
+        // exhaust the process after some ten thousand runs: close whatever is new after each plan
+        let fds_before = crate::netsim::open_fds();
         let mut rep = prop.run_plan(&plan);
         // determinism re-check on a sample: same plan twice in this process must hash identically
         let recheck = i % 16 == 0;
@@ -137,6 +140,9 @@ pub fn work(prop: &dyn Property, tier: Tier, base: u64, from: u64, to: u64, step
             }
             rep.probes.insert("determinism_rechecks".into(), 1);
         }
+        let mut leaked = 0u64;
+        for fd in crate::netsim::open_fds() { if fds_before.binary_search(&fd).is_err() { crate::sys::close(fd); leaked += 1; } }
+        if leaked > 0 { rep.probes.insert("harness_fds_reclaimed".into(), leaked); }
         let line = json!({"i": i, "wall_ms": t_run.elapsed().as_millis() as u64, "report": rep, "plan": if rep.violations.is_empty() && rep.harness_error.is_none() { Value::Null } else { plan }});
         let mut l = stdout.lock();
         let _ = writeln!(l, "{}", line);
